@@ -553,6 +553,7 @@ func (c *Ctx) modifiedIn(env *Env, nodes []ast.Node) (vars map[types.Object]bool
 	fields = map[string]bool{}
 	c.lastDirect = map[string][]types.Object{}
 	c.lastIndirect = map[string]bool{}
+	c.lastExprs = map[string][]ast.Expr{}
 	var markLhs func(e ast.Expr)
 	markLhs = func(e ast.Expr) {
 		switch x := unparen(e).(type) {
@@ -628,12 +629,25 @@ func (c *Ctx) callMayWriteHeap(env *Env, x *ast.CallExpr, fields map[string]bool
 		return false
 	}
 	if fi.Contract != nil && !fi.Contract.Inline {
+		recvName := ""
+		if rv, _, _ := paramObjs(fi); rv != nil {
+			recvName = rv.Name()
+		}
+		var recvExpr ast.Expr
+		if sel, ok := unparen(x.Fun).(*ast.SelectorExpr); ok {
+			recvExpr = sel.X
+		}
 		for _, m := range fi.Contract.Modifies {
-			_, f, _ := cutLast(m, ".")
+			base, f, _ := cutLast(m, ".")
 			if f == "*" {
 				return true
 			}
 			fields[f] = true
+			// "recv.f" written by a method called on a stable path expression: remember the path
+			if base == recvName && recvName != "" && recvExpr != nil && c.modDepth == 0 && stablePath(recvExpr) {
+				c.lastExprs[f] = append(c.lastExprs[f], recvExpr)
+				continue
+			}
 			c.lastIndirect[f] = true
 		}
 		return false
@@ -645,10 +659,10 @@ func (c *Ctx) callMayWriteHeap(env *Env, x *ast.CallExpr, fields map[string]bool
 			return true
 		}
 		c.modDepth++
-		sd, si := c.lastDirect, c.lastIndirect
+		sd, si, se := c.lastDirect, c.lastIndirect, c.lastExprs
 		_, all, fs := c.modifiedIn(sub, []ast.Node{fi.Decl.Body})
 		c.modDepth--
-		c.lastDirect, c.lastIndirect = sd, si
+		c.lastDirect, c.lastIndirect, c.lastExprs = sd, si, se
 		for f := range fs {
 			fields[f] = true
 			c.lastIndirect[f] = true
@@ -671,7 +685,7 @@ func (c *Ctx) havocLoopTargets(env *Env, st *State, nodes []ast.Node) {
 		f = strings.TrimPrefix(f, "$")
 		if all || fields[f] {
 			// a field only written through unmodified pointer variables is havoced at those objects only
-			if !all && !c.lastIndirect[f] && len(c.lastDirect[f]) > 0 {
+			if !all && !c.lastIndirect[f] && len(c.lastDirect[f])+len(c.lastExprs[f]) > 0 {
 				targeted := true
 				h := st.heap[k]
 				for _, o := range c.lastDirect[f] {
@@ -682,6 +696,19 @@ func (c *Ctx) havocLoopTargets(env *Env, st *State, nodes []ast.Node) {
 					}
 					// only objects of the struct this heap key belongs to
 					h = app("store", h, v.T, c.fresh("loop_"+f, c.heapSorts[k]))
+				}
+				for _, ex := range c.lastExprs[f] {
+					if !targeted || !c.pathStableIn(env, ex, vars, fields) {
+						targeted = false
+						break
+					}
+					ne := *env
+					ne.noSafety = true
+					ref := ne.eval(ex, st)
+					if ne.structSortOf(ref.Ty)+"."+f != k && ne.structSortOf(ref.Ty)+".$"+f != k {
+						continue // same field name on a different struct type
+					}
+					h = app("store", h, ref.T, c.fresh("loop_"+f, c.heapSorts[k]))
 				}
 				if targeted {
 					st.heap[k] = h
@@ -951,8 +978,11 @@ func (c *Ctx) execRangeMap(env *Env, x *ast.RangeStmt, st *State, label string, 
 		valObj = env.resolveIdent(id)
 	}
 	emptySet := fmt.Sprintf("((as const (Array %s Bool)) false)", ks)
+	visTy := types.NewMap(mt.Key(), tBool)
+	visSort := env.sortOf(visTy)
 	mk := func(visited string, count string) map[string]Val {
-		return map[string]Val{"visited_": {T: visited, Ty: types.NewMap(mt.Key(), tBool)}, "$i": {T: count, Ty: tInt}, "coll_": coll}
+		vt := app("mk_"+visSort, fmt.Sprintf("((as const (Array %s Bool)) false)", ks), visited, "0")
+		return map[string]Val{"visited_": {T: vt, Ty: visTy}, "$i": {T: count, Ty: tInt}, "idx_": {T: count, Ty: tInt}, "coll_": coll}
 	}
 	check := func(sx *State, visited, count, phase string) {
 		if spec == nil {
@@ -1102,4 +1132,30 @@ func (c *Ctx) genKeep(e *State, n, pi int, pos token.Pos) {
 		return
 	}
 	c.addObl(e, fmt.Sprintf("loop%d/gen-not-stopped@p%d", n, pi), "gen", not(sv.T), c.e.pos(pos), "a generator loop continues only while the consumer wants more", nil)
+}
+
+// stablePath: an identifier or a chain of field selections on one.
+func stablePath(e ast.Expr) bool {
+	switch x := unparen(e).(type) {
+	case *ast.Ident:
+		return true
+	case *ast.SelectorExpr:
+		return stablePath(x.X)
+	}
+	return false
+}
+
+// pathStableIn: the loop modifies neither the root variable nor a field on the path.
+func (c *Ctx) pathStableIn(env *Env, e ast.Expr, vars map[types.Object]bool, fields map[string]bool) bool {
+	switch x := unparen(e).(type) {
+	case *ast.Ident:
+		o := env.resolveIdent(x)
+		return o != nil && !vars[o]
+	case *ast.SelectorExpr:
+		if fields[x.Sel.Name] {
+			return false
+		}
+		return c.pathStableIn(env, x.X, vars, fields)
+	}
+	return false
 }
